@@ -51,7 +51,7 @@ impl Property for C13 {
     fn components_stubbed(&self) -> Vec<&'static str> { vec!["ObjectStore -> SimStore (each call yields to the scheduler in concurrent mode)", "CompactionWorker/PersistenceWorker timers not run: compact() and flush() are invoked directly as two scheduled processes"] }
     fn assumptions(&self) -> Vec<&'static str> { vec!["a tombstone's age is wall-clock time since the DEL was issued (the harness tracks it); the code only has the Lamport stamp", "absent key == tombstoned key when comparing states after a permitted tombstone drop"] }
     fn required_probes(&self) -> Vec<&'static str> { vec!["compaction_rewrote_segments", "segment_skipped_by_size", "concurrent_flush_overlapped", "tombstone_in_input"] }
-    fn runs(&self, tier: Tier) -> u64 { match tier { Tier::Quick => 2500, Tier::Thorough => 120_000 } }
+    fn runs(&self, tier: Tier) -> u64 { match tier { Tier::Quick => 50000, Tier::Thorough => 3000000 } }
 
     fn derive(&self, tape: &[u64], rep: &RunReport, tier: Tier) -> Vec<Vec<u64>> {
         if tape.len() < 8 || tape[H_MODE] % 4 != 2 { return vec![]; }
